@@ -1,5 +1,5 @@
 PROPERTY = "C19"
-PACKAGES = ["./bridgesync"]
+PACKAGES = ["./bridgesync", "./common"]
 B = "github.com/agglayer/aggkit/bridgesync."
 OBLIGATIONS = [
     dict(name="C19.a Decode(Generate(m,r,l)) == (m, m?0:r, l); value has the contract bit layout",
@@ -7,4 +7,6 @@ OBLIGATIONS = [
     dict(name="C19.b Generate(Decode(g)) == g for canonical on-chain values",
          harness=B + "ZZVerif_C19_DecodeEncode", bounds="all g < 2^65 with rollup bits zero when the mainnet bit is set", reach=["end"]),
 ]
+OBLIGATIONS.append(dict(name="C19.c consumers: the little-endian encoding used by the certificate commitments is the byte-reversed contract word",
+                        harness=B + "ZZVerif_C19_Consumers", bounds="all 2 x 2^32 x 2^32 triples", reach=["end"], unwind=200))
 ASSUMPTIONS = ["math/big modelled as 256-bit non-negative integers (SetBytes/Bytes/FillBytes/Cmp/SetUint64)"]
